@@ -342,6 +342,11 @@ func (se *specEnv) index(x *ast.IndexExpr) tv {
 		return tv{term: sel(sel(se.v.getHeap(se.cur, h), fmt.Sprintf("(s_arr %s)", base.term)), abs), typ: u.Elem()}
 	case *types.Array:
 		return tv{term: sel(base.term, idx.term), typ: u.Elem()}
+	case *types.Pointer:
+		if arr, ok := u.Elem().Underlying().(*types.Array); ok && !isStruct(arr.Elem()) {
+			h, _ := se.v.elemHeap(arr.Elem())
+			return tv{term: sel(sel(se.v.getHeap(se.cur, h), base.term), idx.term), typ: arr.Elem()}
+		}
 	case *types.Map:
 		hv, _, _ := se.v.mapHeaps(u)
 		return tv{term: sel(sel(se.v.getHeap(se.cur, hv), base.term), idx.term), typ: u.Elem()}
@@ -637,6 +642,30 @@ func (se *specEnv) call(x *ast.CallExpr) tv {
 			return tv{term: fmt.Sprintf("(forall ((%s Int)) %s)", bn, imp(rng, body)), typ: boolT}
 		}
 		return tv{term: fmt.Sprintf("(exists ((%s Int)) %s)", bn, and(rng, body)), typ: boolT}
+	case "forall_u64", "forall_i64", "forall_u8", "forall_u32":
+		// typed universal quantifier (bit-vector in arith bv, ranged Int otherwise)
+		if !argn(2) {
+			return tv{term: "false", typ: boolT}
+		}
+		vid, ok := x.Args[0].(*ast.Ident)
+		if !ok {
+			return se.fail("quantifier variable must be an identifier")
+		}
+		qt := map[string]types.Type{"forall_u64": types.Typ[types.Uint64], "forall_i64": types.Typ[types.Int64], "forall_u8": types.Typ[types.Uint8], "forall_u32": types.Typ[types.Uint32]}[id.Name]
+		se.v.ctr++
+		bn := q(fmt.Sprintf("%s!%d", vid.Name, se.v.ctr))
+		saved, had := se.names[vid.Name]
+		se.names[vid.Name] = tv{term: bn, typ: qt}
+		body := se.evalBool(x.Args[1])
+		if had {
+			se.names[vid.Name] = saved
+		} else {
+			delete(se.names, vid.Name)
+		}
+		if inv := se.v.sc.typeInv(bn, qt); inv != "" {
+			body = imp(inv, body)
+		}
+		return tv{term: fmt.Sprintf("(forall ((%s %s)) %s)", bn, se.v.sc.sortOf(qt), body), typ: boolT}
 	case "len":
 		if !argn(1) {
 			return tv{term: "0", typ: intT}
@@ -666,6 +695,15 @@ func (se *specEnv) call(x *ast.CallExpr) tv {
 	case "off":
 		a := se.eval(x.Args[0])
 		return tv{term: fmt.Sprintf("(s_off %s)", a.term), typ: intT}
+	case "row":
+		// row(s): the backing array of slice s as an SMT array (for uninterpreted spec functions)
+		a := se.eval(x.Args[0])
+		sl, ok := a.typ.Underlying().(*types.Slice)
+		if !ok || isStruct(sl.Elem()) {
+			return se.fail("row() needs a slice of scalars")
+		}
+		h, _ := se.v.elemHeap(sl.Elem())
+		return tv{term: sel(se.v.getHeap(se.cur, h), fmt.Sprintf("(s_arr %s)", a.term)), typ: types.NewArray(sl.Elem(), 0)}
 	case "has":
 		// has(m, k): key k is present in map m
 		m, k := se.eval(x.Args[0]), se.eval(x.Args[1])
@@ -767,6 +805,9 @@ func (se *specEnv) call(x *ast.CallExpr) tv {
 		if uf == "Bool" {
 			return tv{term: term, typ: boolT}
 		}
+		if strings.HasSuffix(id.Name, "_u64") {
+			return tv{term: term, typ: types.Typ[types.Uint64]}
+		}
 		return tv{term: term, typ: intT}
 	}
 	return se.fail("unknown spec function %s", id.Name)
@@ -839,6 +880,12 @@ func (se *specEnv) eval(e ast.Expr) tv {
 				return tv{term: intTerm(new(big.Int).Neg(bi)), typ: a.typ}
 			}
 			return tv{term: fmt.Sprintf("(- %s)", a.term), typ: a.typ}
+		case token.XOR:
+			a := se.eval(x.X)
+			if a.typ != nil && se.v.sc.isBVType(a.typ) {
+				return tv{term: fmt.Sprintf("(bvnot %s)", a.term), typ: a.typ}
+			}
+			return se.fail("unary ^ needs a bit-vector operand (arith bv)")
 		case token.AND:
 			a := se.eval(x.X)
 			if a.isLoc {
@@ -920,6 +967,13 @@ func (se *specEnv) locations(e ast.Expr, pre *state) []loc {
 			return se.fieldLocs(t, base.term, "all")
 		}
 		if p, ok := base.typ.Underlying().(*types.Pointer); ok {
+			if arr, isArr := p.Elem().Underlying().(*types.Array); isArr {
+				if isStruct(arr.Elem()) {
+					return se.fieldLocs(arr.Elem(), "", "all")
+				}
+				h, _ := se.v.elemHeap(arr.Elem())
+				return []loc{{heap: h, ref: base.term}}
+			}
 			h, _ := se.v.cellHeap(p.Elem())
 			return []loc{{heap: h, ref: base.term, typ: p.Elem()}}
 		}
